@@ -855,3 +855,18 @@ func (r *SexpStackmark) Type() *RegisteredType {
 func (mark *SexpStackmark) SexpString(ps *PrintState) string {
 	return "stackmark " + mark.sym.name
 }
+
+// showForError renders a value for use inside an error message. The
+// Go-syntax dump (%v, %#v) of an Sexp prints the heap addresses of the
+// pointers inside it, which makes the error text differ from run to run.
+func showForError(x Sexp) (s string) {
+	if x == nil {
+		return "<nil>"
+	}
+	defer func() {
+		if r := recover(); r != nil {
+			s = fmt.Sprintf("<%T>", x)
+		}
+	}()
+	return x.SexpString(nil)
+}
